@@ -434,6 +434,10 @@ class Lower(object):
         fn.cy_argtypes = types
         fn.cy_rettype = type_str(base_type, declarator)
         fn.cy_nogil = getattr(fd, 'nogil', False)
+        # exception propagation of a cdef function: `noexcept` (errors are printed and swallowed) / an `except` clause / nothing written
+        ev_ = getattr(fd, 'exception_value', None)
+        ec_ = getattr(fd, 'exception_check', None)
+        fn.cy_except = {'value': (ev_.value if hasattr(ev_, 'value') else (str(ev_) if ev_ is not None else None)), 'check': ec_}
         return self.loc(fn, node)
 
     def s_CFuncDefNode(self, node):
